@@ -173,6 +173,11 @@ pub fn run(a: &Args) {
         let (r, v) = read(b);
         st.bump(match r { R::U => "unknown", R::B(_) => "builtin", R::M(_) => "mod", R::E => "error", R::P => "panic", R::Other => "other" });
         if let Some(w) = oracle(b) { st.fail(w, hex(&b)); }
+        // the identifier is its 4 bytes however the reader hands them over: one or three bytes per read() call give the same value
+        if corr && (shape(b) || b[3] == 0 || st.evaluations % 64 == 0) { for k in [1usize, 3] {
+            let r2 = guard(|| Vehicle::read_le(&mut Dribble { inner: Cursor::new(b), k }).ok());
+            if r2 != Some(v.clone()) && !(r2 == Some(None) && v.is_none()) { st.fail(format!("[C13] {} read {k} byte(s) at a time decodes to {:?}, in one piece to {:?}", hex(&b), r2, v), format!("dribble {k} {}", hex(&b))); break; }
+        } }
         if seen.insert(b) && (shape(b) || b == [0; 4] || b[3] == 0) { nontrivial += 1; }
         if corr {
             out.case(&format!("vread {}", hex(&b)), &r.show());
